@@ -377,6 +377,35 @@ func runC14(c *Ctx) {
 		c.verdict(len(bad) == 0 && len(odd) == 0 && len(single.sites) >= 1 && len(gEnd.sites) >= 1, construct, c.P.Pos(fn.Pos()), "success only through verify(overlapEnd)=nil or overlapEnd <= overlapStart", join(uniq(bad))+join(odd), c.ats(append(startV, endV...))...)
 	})
 
+	c.rule("C14.V3", "each region is written as far as it was asked for and no further: appendNewHeaders reads the import source between the indices of its own startHeight and endHeight parameters - both iterators get (index of startHeight, index of endHeight), each converted with targetHeightToImportSourceIndex against the file's start height; an end taken from the file's metadata makes the block-only catch-up of the divergence region run on to the end of the file, and the region after it appends the same headers again", func() {
+		fn := c.fn("(*chainimport.headersImport).appendNewHeaders")
+		conv := c.funcObj("chainimport", "targetHeightToImportSourceIndex")
+		metaStart := c.field("chainimport", "importMetadata", "startHeight")
+		idxOf := func(v ssa.Value, param *ssa.Parameter) bool {
+			call, ok := ir.Strip(v).(*ssa.Call)
+			if !ok || !callTo(conv)(call) || len(call.Call.Args) != 2 {
+				return false
+			}
+			return ir.Strip(call.Call.Args[0]) == ssa.Value(param) && loadsField(metaStart)(call.Call.Args[1])
+		}
+		iters := find(fn, func(in ssa.Instruction) bool {
+			cc := ir.CallOf(in)
+			return cc != nil && cc.IsInvoke() && cc.Method.Name() == "Iterator"
+		})
+		var bad []string
+		for _, it := range iters {
+			a := ir.CallOf(it).Args
+			if len(a) < 2 || !idxOf(a[0], fn.Params[2]) {
+				bad = append(bad, "the iterator made at "+c.at(it)+" does not start at the index of the startHeight parameter")
+			}
+			if len(a) < 2 || !idxOf(a[1], fn.Params[3]) {
+				bad = append(bad, "the iterator made at "+c.at(it)+" does not end at the index of the endHeight parameter")
+			}
+		}
+		sort.Strings(bad)
+		c.verdict(len(iters) == 2 && len(bad) == 0, c.nm(fn)+" | both source iterators cover [index(startHeight), index(endHeight)]", c.P.Pos(fn.Pos()), "2 iterators bounded by the region's own heights", join(bad)+fmt.Sprintf(" (%d iterators)", len(iters)), c.ats(iters)...)
+	})
+
 	c.rule("C14.V2", "the batch validators look at every header of the batch: blockHeadersImportSourceValidator.ValidateBatch visits indices 1..len-1 and validates each adjacent pair (headers[i-1], headers[i]); filterHeadersImportSourceValidator.ValidateBatch visits 0..len-1 with ValidateSingle; any early way out of either loop returns an error", func() {
 		for _, spec := range []struct {
 			fn, callee string
